@@ -69,4 +69,70 @@ example :
     (c.tx.filterMap fun r => match r.item with | .ack h => some (h, r.snap.handledNr) | _ => none) = [(2, 2)] := by
   decide
 
+/-! ### the count is carried across connections: `<resume/>` reports it -/
+
+def bindResult : XTree :=
+  .tag (b "iq") (some Gen.nsClient) [(b "id", b "_xmpp_bind1"), (b "type", b "result")]
+    [.tag (b "bind") (some Gen.nsBind) [] [.tag (b "jid") (some Gen.nsBind) [] [.text (b "user@example.org/r")]]]
+
+/-- connect and negotiate up to the stream features after authentication -/
+def nego : List Op :=
+  [.connect .client, .run .none, .run .none,
+   .run (.data [.open_ (b "stream") (some (b "s1")), .stanza featuresPlain]),
+   .run (.data [.stanza (.tag (b "success") (some Gen.nsSasl) [] [])]),
+   .run (.data [.open_ (b "stream") (some (b "s2")), .stanza featuresBindSm])]
+
+/-- a resumable session in which two stanzas arrive, the loss of the connection, and the next
+    connection up to `<resume/>` on the wire -/
+def resumeSession : List Op :=
+  nego ++
+  [.run (.data [.stanza bindResult]),
+   .run (.data [.stanza (.tag (b "enabled") (some Gen.nsSm) [(b "id", b "sm1"), (b "resume", b "true")] [])]),
+   .run (.data [.stanza (msg "a"), .stanza (msg "b")]),
+   .run .eof] ++ nego ++ [.run .none]
+
+set_option maxRecDepth 100000 in
+example :
+    let c := exec (fresh (some (b "user@example.org/r")) (some (b "secret")) false 0) resumeSession
+    c.sm.handledNr = 2 ∧ countSince c.rxLog = 2 ∧ c.protoViol = 0 ∧
+    (c.tx.filterMap fun r => match r.item with | .resume p h => some (p, h, r.snap.handledNr) | _ => none) =
+      [(b "sm1", 2, 2)] := by
+  decide
+
+/-! ### regression (finding D51): an element that merely CONTAINS an XEP-0198 child is not the answer
+to `<enable/>`; it is a stanza and is counted (before the fix `_handle_sm` took it for `<enabled/>`
+and restarted the count: counter 1 against 4 dispatched) -/
+
+set_option maxRecDepth 100000 in
+example :
+    let c := exec (fresh (some (b "user@example.org/r")) (some (b "secret")) false 0)
+      (nego ++ [.run (.data [.stanza bindResult]),
+                .run (.data [.stanza (msg "a"), .stanza (msg "b"),
+                  .stanza (.tag (b "enabled") (some Gen.nsClient) [] [.tag (b "x") (some Gen.nsSm) [] []])])])
+    c.sm.handledNr = 4 ∧ countSince c.rxLog = 4 ∧ c.protoViol = 0 ∧
+    (c.handlers.any fun h => h.fn = .sys .sm) = true := by
+  decide
+
+/-! ### the hypotheses of the implications are satisfiable by non-trivial reachable states -/
+
+-- `sm_elements_never_counted`, `every_r_one_a`: an `<r/>` arriving in a connected state that has counted
+set_option maxRecDepth 100000 in
+example :
+    let c := exec (fresh (some (b "user@example.org/r")) (some (b "secret")) false 0) smSession
+    let st : XTree := .tag (b "r") (some Gen.nsSm) [] []
+    st.ns? = some Gen.nsSm ∧ st.name? = some (b "r") ∧ c.state = .connected ∧ c.sm.enabled = true ∧
+    c.sm.handledNr = 2 := by
+  decide
+
+-- `count_carried_across`: a state with an SM record and a non-zero count
+set_option maxRecDepth 100000 in
+example :
+    let c := exec (fresh (some (b "user@example.org/r")) (some (b "secret")) false 0) smSession
+    c.hasSm = true ∧ c.sm.handledNr = 2 := by
+  decide
+
+-- `reported_h_is_count`: the sessions above only submit user items (they submit nothing)
+example : userOps smSession ∧ userOps resumeSession := by
+  constructor <;> (intro op hop; simp [smSession, resumeSession, nego] at hop; rcases hop with h | h | h | h | h | h | h | h | h | h | h | h | h | h | h | h | h | h | h | h | h | h <;> (try subst h) <;> trivial)
+
 end Strophe.C05
